@@ -567,10 +567,17 @@ package ysgo
 //@   requires rng != nil
 //@   ensures res != nil && fresh(res) && res.functionsByID != nil && fresh(res.functionsByID)
 //
-//@ func (storer *functionStorer) convertAndAddFunction(functionID string, function any) (err error)
+// The converting bridge itself is reflection code (C16: bounded stand-in B-bridge); around it: a wrapper is
+// stored under the name only when the conversion succeeded.
+//@ func newYarnSpinnerFunction(function any) (f YarnSpinnerFunction, err error)
 //@   trusted
+//@   ensures (err == nil) == (f != nil)
+//
+//@ func (storer *functionStorer) convertAndAddFunction(functionID string, function any) (err error)
 //@   requires storer != nil && storer.functionsByID != nil
 //@   modifies mapcontent(storer.functionsByID)
+//@   ensures "registered-on-success": err == nil ==> functionID in storer.functionsByID && storer.functionsByID[functionID] != nil
+//@   ensures "nothing-registered-on-failure": err != nil ==> dom(storer.functionsByID) == old(dom(storer.functionsByID)) && mapval(storer.functionsByID) == old(mapval(storer.functionsByID))
 //
 //@ func NewDialogueRunner(storer variable.Storer, rngSeed string, readers []io.Reader) (runner *DialogueRunner, err error)
 //@   ensures "runner-or-error": (err == nil) == (runner != nil)
